@@ -82,11 +82,12 @@ def check(impl, mstate, born, out, where):
             continue
         if c.state != mc.state:
             out.append(('circuit-state', mc.state, '%s: circuit %d state %r, Tor says %r' % (where, cid, c.state, mc.state)))
-        if c.purpose != M.PURPOSE[cid]:
-            out.append(('circuit-purpose', str(c.purpose), '%s: circuit %d purpose %r want %r' % (where, cid, c.purpose, M.PURPOSE[cid])))
+        if c.purpose != M.purpose(cid, mc.purp):
+            out.append(('circuit-purpose', 'changed' if mc.purp else 'original',
+                        '%s: circuit %d purpose %r, Tor says %r' % (where, cid, c.purpose, M.purpose(cid, mc.purp))))
         if list(c.build_flags) != M.BUILD_FLAGS[cid].split(','):
             out.append(('circuit-build-flags', 'x', '%s: circuit %d build_flags %r' % (where, cid, c.build_flags)))
-        want_flags = {'PURPOSE': M.PURPOSE[cid], 'BUILD_FLAGS': M.BUILD_FLAGS[cid]}
+        want_flags = {'PURPOSE': M.purpose(cid, mc.purp), 'BUILD_FLAGS': M.BUILD_FLAGS[cid]}
         for k, v in want_flags.items():
             if c.flags.get(k) != v:
                 out.append(('circuit-flags', k, '%s: circuit %d flags %r lacks %s=%s' % (where, cid, c.flags, k, v)))
